@@ -112,12 +112,18 @@ def tassaAdditive (levels : List (Int × List Nat)) (Q : List Nat) (share : Nat 
     let d0 := det (minor b i 0) * share id
     (id, (if i % 2 = 1 then - d0 else d0) * d⁻¹)
 
-/-- `tassa.Reconstruct` by solving the Birkhoff system (unique when it is non-singular) -/
+/-- number of coefficients up to the last non-zero one (`Degree() + 1`; 0 for the zero polynomial) -/
+def polyLen (a : List F) : Nat := (a.reverse.dropWhile (· = 0)).length
+
+/-- `tassa.Reconstruct`: at least two shares, solve the Birkhoff system (unique when it is
+non-singular), and insist that the interpolated polynomial has degree exactly `top - 1` -/
 def tassaReconstruct (levels : List (Int × List Nat)) (Q : List Nat) (share : Nat → F) : Option F := do
   let q := sortedSet Q
+  if q.length < 2 then none
   let b : Mat F := birkhoffMatrix (q.map fun id => (id, (hierRank levels id).getD 0)) q.length
   if det b = 0 then none
   let a ← solveRight b q.length (q.map share)
+  if polyLen a ≠ topThreshold levels then none
   a.head?
 
 end BronVerif.Sharing
